@@ -278,6 +278,60 @@ theorem C06_identity_partial (i : Img) (p1 p2 q1 q2 : UInt8) (e e' : Enc)
       | raw => rw [supportedB_d32_raw] at hs'; cases hs'
       | packed b => rw [C06_32bit_packed_bytes W H ox oy rows p1 p2 a h, C06_32bit_packed_bytes W H ox oy rows q1 q2 b h']
 
+/-! ### negative registration offsets (`bitd2bmpI`: the entry point on integer offsets)
+
+  A negative left offset widens the canvas by that amount (first statement of `bitd2bmp`, repair F94), a negative top
+  offset heightens it (`fixPad`, in every decoder): the member is decoded exactly like the member that declares the
+  enlarged canvas with offset 0, so everything above applies to it. -/
+
+/-- for non-negative left offsets the integer entry point is the natural-number one -/
+theorem C06_request_nonneg (r : Request) (h : 0 ≤ r.padW) :
+    bitd2bmpI r = bitd2bmp { depth := r.depth, width := r.width, height := r.height, padW := r.padW.toNat, padH := r.padH,
+                             palette := r.palette, clut := r.clut, fdata := r.fdata } := by
+  unfold bitd2bmpI Request.normalise
+  rw [if_neg (by omega)]
+
+/-- a member whose record declares a canvas `k` columns narrower than the image and the left offset `-k` decodes to the
+    same bytes as the image on its own canvas at offset 0 -/
+theorem C06_negative_left_offset (i : Img) (hox : i.ox = 0) (k : Nat) (hk : k ≤ i.W) (data : Bytes) :
+    bitd2bmpI { depth := i.pix.depth, width := i.W - k, height := i.H, padW := -(k : Int), padH := (i.oy : Int),
+                palette := "systemMac", clut := [], fdata := data } = bitd2bmp (callOf i data) := by
+  unfold bitd2bmpI Request.normalise callOf
+  by_cases h0 : k = 0
+  · subst h0
+    simp only [Int.natCast_zero, Int.neg_zero, Int.lt_irrefl, if_false, Int.toNat_zero, Nat.sub_zero, hox]
+  · have hneg : -(k : Int) < 0 := by omega
+    have e : i.W - k + (-(k : Int)).natAbs = i.W := by omega
+    simp only [hneg, if_true, e, hox]
+
+/-- hence it reads back as the whole image (every depth and encoding `C06_partial` covers) -/
+theorem C06_negative_left_offset_reads_back (i : Img) (p1 p2 : UInt8) (e : Enc) (hox : i.ox = 0) (k : Nat) (hk : k ≤ i.W)
+    (hq : InQuantifier i p1 p2 e) (hs : supportedB i e = true) :
+    ∃ bmp, bitd2bmpI { depth := i.pix.depth, width := i.W - k, height := i.H, padW := -(k : Int), padH := (i.oy : Int),
+                       palette := "systemMac", clut := [], fdata := serialise i p1 p2 e } = .ok bmp ∧
+           readBmp bmp = some (canvas i) := by
+  rw [C06_negative_left_offset i hox k hk]
+  exact C06_partial i p1 p2 e hq hs
+
+example : ∃ bmp, bitd2bmpI ⟨8, 2, 1, -2, 0, "systemMac", [], serialise ⟨4, 1, 0, 0, .d8 [[1, 2, 3, 4]]⟩ 0 0 .raw⟩ = .ok bmp ∧ readBmp bmp = some (canvas ⟨4, 1, 0, 0, .d8 [[1, 2, 3, 4]]⟩) :=
+  C06_negative_left_offset_reads_back ⟨4, 1, 0, 0, .d8 [[1, 2, 3, 4]]⟩ 0 0 .raw rfl 2 (by decide) (by decide) (by decide)
+
+/-- the same for a negative top offset: a record that declares a canvas `k` rows lower than the image and the top offset
+    `-k` decodes to the same bytes as the image on its own canvas at offset 0 -/
+theorem C06_negative_top_offset (i : Img) (hoy : i.oy = 0) (k : Nat) (hk : k ≤ i.H) (data : Bytes) :
+    bitd2bmp { callOf i data with height := i.H - k, padH := -(k : Int) } = bitd2bmp (callOf i data) := by
+  have hfp : fixPad (callOf i data).height (callOf i data).padH = fixPad (i.H - k) (-(k : Int)) := by
+    show fixPad i.H (i.oy : Int) = _
+    rw [hoy, fixPad_neg i.H k hk]; rfl
+  exact (bitd2bmp_fixPad (callOf i data) (i.H - k) (-(k : Int)) hfp).symm
+
+theorem C06_negative_top_offset_reads_back (i : Img) (p1 p2 : UInt8) (e : Enc) (hoy : i.oy = 0) (k : Nat) (hk : k ≤ i.H)
+    (hq : InQuantifier i p1 p2 e) (hs : supportedB i e = true) :
+    ∃ bmp, bitd2bmp { callOf i (serialise i p1 p2 e) with height := i.H - k, padH := -(k : Int) } = .ok bmp ∧
+           readBmp bmp = some (canvas i) := by
+  rw [C06_negative_top_offset i hoy k hk]
+  exact C06_partial i p1 p2 e hq hs
+
 /-! ### the excluded classes really fail (each replayed on the real code: corpus/C06/open_*.json) -/
 
 /-- F34: raw 16-bit storage -/
